@@ -16,6 +16,34 @@ CHECKS = {
     ),
 }
 
+_CONN_TECH = "TLA+ spec Connection.tla model-checked by TLC (all interleavings of user calls, device events, faults and task resumptions in bounded instances); TLC-generated and systematic/random schedules executed on the real APIConnection in a virtual-time loop; recorded traces validated by TLC against TraceConnection.tla"
+_CONN_NOTE = "Schedules are those asyncio's _run_once can produce; SimTransport mirrors _SelectorSocketTransport; a second start/finish while the first is pending is outside the domain. " + TB
+
+CHECKS.update({
+    "C02": dict(
+        technique="TLA+ specs Wire.tla/Writer.tla: TLC enumerates packets, batches and write sequences and computes the expected header bytes/nonces; behaviours replayed into write_packets; send_messages sessions validated by TLC (TraceWriter.tla) with an independent explicit-nonce AEAD decoder",
+        text="Exhaustive enumeration of boundary types/lengths and batch sequences in the bounds for both framings, replayed into the real helpers; long sessions over every client-originated message class validated as traces.",
+        design="§3.1, §6 C02",
+        note="Noise payloads > 65515 bytes are outside the domain; protobuf serialisation and cryptography's ChaCha20Poly1305 are trusted. " + TB,
+    ),
+    "C03": dict(
+        technique="TLA+ spec NoiseHelper.tla (symbolic crypto) model-checked by TLC for all cut sets; edge-cover behaviours replayed against a stock noiseprotocol responder; recorded sessions validated by TLC (TraceNoise.tla)",
+        text="Readiness only after the handshake, deliveries equal what the responder encrypted, name rule: TLC-checked on the symbolic model for all segmentations, replayed and trace-validated against an independent conformant responder.",
+        design="§3.3, §6 C03",
+        note="The stock noiseprotocol responder and cryptography are trusted to be standards-conformant; crypto is symbolic in the specification. " + TB,
+    ),
+    "C04": dict(
+        technique="TLA+ spec NoiseHelper.tla with every single-frame deviation as a named transformation, model-checked by TLC (prefix invariant, error-class table); each materialised on a live session and replayed; deviating sessions validated by TLC (TraceNoise.tla); key-string classes and plaintext preamble cases enumerated",
+        text="Every deviation x frame index x cut set in the bounds is model-checked and replayed against the real helper; random deviating sessions are trace-validated; key strings of every length 0..48 and malformed classes are tried.",
+        design="§3.3, §6 C04",
+        note="Handshake bodies malformed in ways the statement does not list must fail closed with some error (class not compared). " + TB,
+    ),
+    "C05": dict(technique=_CONN_TECH, text="Action properties ForwardOnly/ClosedFinal and ConnectedFlag model-checked over all interleavings in the bounds; the real connection's state is sampled after every loop callback and every trace must be a behaviour of the specification.", design="§3.5, §6 C05", note=_CONN_NOTE),
+    "C07": dict(technique=_CONN_TECH, text="Stop-callback invariants (at most once, iff connected was reached, argument = expected flag) model-checked; close causes injected singly and in pairs at every stage on the real connection, the stop-callback log is part of every validated trace row.", design="§3.5, §6 C07", note=_CONN_NOTE),
+    "C08": dict(technique=_CONN_TECH, text="Release/silence invariants model-checked; a close cause injected before every step of connect/handshake/login/steady/disconnect with every gap; after every callback socket/transport/writes/deliveries and at every idle point the whole timer heap are compared with the specification.", design="§3.5, §6 C08", note=_CONN_NOTE),
+    "C09": dict(technique=_CONN_TECH, text="Every operation outcome (class, virtual completion time) is part of the validated trace; idle rows require the specification to have nothing left to run (hang detection); first-cause rule encoded in the expected classes.", design="§3.5, §6 C09", note=_CONN_NOTE + " Error classes the statement does not name are only required to be in the hierarchy."),
+})
+
 NOT_YET = {}
 
 
